@@ -90,10 +90,10 @@ InvOK(q, st, p, tt) == LET b == NearestBeh(st, p) IN
 
 \* start sub-behaviour d on top of c: preconditions then invariants, else rejection
 StartBeh(q, c, d, tt) ==
-  IF GuardsOK(q, d, tt) THEN Push(Push(c, FBeh(d)), FSeq(Def(q, d).body)) ELSE Sig(c, "reject")
+  IF GuardsOK(q, d, tt) THEN Push(Push(c, FBeh(d)), FSeq(Def(q, d).body)) ELSE Sig(c, IF AllTrue(q, Def(q, d).pre, tt) THEN "guardinv" ELSE "guardpre")
 
 \* the invariant check the parent performs after a `do`-like statement returns
-AfterInvoke(q, c, tt) == IF InvOK(q, c.st, Len(c.st), tt) THEN c ELSE Sig(c, "reject")
+AfterInvoke(q, c, tt) == IF InvOK(q, c.st, Len(c.st), tt) THEN c ELSE Sig(c, "guardinv")
 
 \* ---- try/interrupt: block selection (clause order 1..n; the latest enabled-or-running wins)
 Running(f, i) == f.act = i \/ f.saved[i] # <<>>
@@ -119,15 +119,15 @@ Walk(q, c, p, tt) ==
   IF c.sig # "run" THEN c
   ELSE IF p > Len(c.st) THEN
        (IF Top(c).k = "idle" THEN c
-        ELSE IF InvOK(q, c.st, Len(c.st), tt) THEN c ELSE Sig(c, "reject"))
+        ELSE IF InvOK(q, c.st, Len(c.st), tt) THEN c ELSE Sig(c, "guardinv"))
   ELSE LET f == c.st[p] IN
        IF f.k = "mod" THEN
-          IF ~InvOK(q, c.st, p, tt) THEN Sig(c, "reject")
+          IF ~InvOK(q, c.st, p, tt) THEN Sig(c, "guardinv")
           ELSE IF (IF f.m = "for" THEN LimitReached(q, tt - f.start, f.n, f.u) ELSE Tab(q, f.c, tt))
                THEN AfterInvoke(q, [c EXCEPT !.st = SubSeq(c.st, 1, p - 1)], tt)   \* abort: sub-behaviours above are stopped
                ELSE Walk(q, c, p + 1, tt)
        ELSE IF f.k = "try" THEN
-          IF ~InvOK(q, c.st, p, tt) THEN Sig(c, "reject")
+          IF ~InvOK(q, c.st, p, tt) THEN Sig(c, "guardinv")
           ELSE LET b == Select(q, f, tt) IN
                IF b = f.act THEN Walk(q, c, p + 1, tt)
                ELSE \* pre-empt: save the running block's continuation, switch to block b
@@ -155,6 +155,20 @@ Unwind(c, mode) ==
       [] mode = "break" -> IF f.k = "while" THEN Pop(c) ELSE Unwind(Pop(c), mode)
       [] mode = "continue" -> IF f.k = "while" THEN c ELSE Unwind(Pop(c), mode)
       [] mode = "return" -> IF f.k = "beh" THEN c ELSE Unwind(Pop(c), mode)
+
+(* Named as-implemented deviation (KNOWN_FINDINGS nested-try-return-leaks): the code generated  *)
+(* for a try/interrupt statement that is itself inside a block of another try/interrupt turns a   *)
+(* `return` of the inner statement into a plain return from the OUTER statement's block function, *)
+(* so the outer statement ends and the behaviour continues after it instead of returning.  Only   *)
+(* used when the case sets impl = 1; the trigger predicate (a return lexically inside two nested   *)
+(* try/interrupt statements) is computed by the harness from the same program tree.                *)
+RECURSIVE UnwindReturnImpl(_, _)
+UnwindReturnImpl(c, k) ==
+  IF c.st = <<>> THEN Sig(c, "done")
+  ELSE LET f == Top(c) IN
+    IF f.k = "beh" THEN c
+    ELSE IF f.k = "try" THEN (IF k = 1 THEN Pop(c) ELSE UnwindReturnImpl(Pop(c), k + 1))
+    ELSE UnwindReturnImpl(Pop(c), k)
 
 \* one micro-step of a coroutine whose signal is "run"
 Micro(q, c, tt) ==
@@ -199,9 +213,8 @@ Micro(q, c, tt) ==
                   [] s[1] = "try" -> EnterBlock(q, Push(c1, [FTry(s[3]) EXCEPT !.act = -1] @@ [body |-> s[2]]), tt)
                   [] s[1] \in {"abort", "break", "continue"} -> Unwind(c1, s[1])
                   [] s[1] = "return" ->
-                       LET c2 == Unwind(c1, "return") IN
-                       IF c2.sig = "done" THEN c2
-                       ELSE c2)   \* the beh frame is now on top: it returns below
+                       IF Cases[q].impl = 1 THEN UnwindReturnImpl(c1, 0)
+                       ELSE Unwind(c1, "return"))   \* the beh frame is now on top: it returns below
   [] f.k = "while" -> IF Tab(q, f.c, tt) THEN Push(c, FSeq(f.s)) ELSE Pop(c)
   [] f.k = "beh" ->   \* the behaviour's body has finished (or it executed return)
         LET c1 == Pop(c) IN
@@ -256,6 +269,10 @@ Init ==
   /\ elapsed = 0 /\ scenOn = TRUE /\ ws = <<>> /\ pick = <<>>
 
 End(type) == /\ ending' = <<type, t>> /\ phase' = "end"
+\* rejections: a false `require` / a deadlocked choose ("reject"), or a guard violation
+\* (which Simulator.simulate raises instead when raiseGuardViolations is set)
+Rejections == {"reject", "guardpre", "guardinv"}
+EndRej(kind) == /\ ending' = <<"rejected", t, kind>> /\ phase' = "end"
 
 \* objects are created, the top-level scenario starts: behaviours (guards checked), monitors;
 \* then dynamic properties are read back once
@@ -267,7 +284,10 @@ Setup ==
         /\ beh' = [a \in 1..NA |-> IF C.agents[a] = 0 THEN Sig(NewCor(<<>>), "done")
                                    ELSE NewCor(<<FBeh(C.agents[a]), FSeq(Def(cid, C.agents[a]).body)>>)]
         /\ mon' = [m \in 1..NM |-> NewCor(<<FBeh(C.monitors[m]), FSeq(Def(cid, C.monitors[m]).body)>>)]
-        /\ IF bad THEN End("rejected") /\ UNCHANGED ai ELSE phase' = "scenario" /\ ending' = ending /\ ai' = 0
+        /\ IF bad
+           THEN LET a == CHOOSE x \in Agents : ~GuardsOK(cid, C.agents[x], 0) /\ \A y \in Agents : y < x => GuardsOK(cid, C.agents[y], 0)
+                IN EndRej(IF AllTrue(cid, Def(cid, C.agents[a]).pre, 0) THEN "guardinv" ELSE "guardpre") /\ UNCHANGED ai
+           ELSE phase' = "scenario" /\ ending' = ending /\ ai' = 0
   /\ pend' = [a \in 1..NA |-> <<>>]
   /\ UNCHANGED <<cid, t, nexec, ntraj, flag, elapsed, scenOn, ws, pick>>
 
@@ -303,7 +323,7 @@ MonitorResume ==
      ELSE LET c == Resume(cid, mon[ai], t) IN
           /\ mon' = [mon EXCEPT ![ai] = c]
           /\ ev' = ev \o c.out
-          /\ CASE c.sig = "reject" -> End("rejected") /\ UNCHANGED <<flag, ai, scenOn, pick>>
+          /\ CASE c.sig \in Rejections -> EndRej(c.sig) /\ UNCHANGED <<flag, ai, scenOn, pick>>
                [] c.sig = "pick" -> pick' = <<"mon", ai>> /\ UNCHANGED <<flag, ai, scenOn, phase, ending>>
                [] c.sig = "termsim" -> flag' = <<"terminatedByMonitor">> /\ ai' = ai + 1 /\ UNCHANGED <<phase, ending, scenOn, pick>>
                [] c.sig = "terminate" -> flag' = <<"terminatedByMonitor">> /\ ai' = ai + 1 /\ UNCHANGED <<phase, ending, scenOn, pick>>
@@ -336,7 +356,7 @@ BehaviorResume ==
           ELSE LET c == Resume(cid, beh[a], t) IN
                /\ beh' = [beh EXCEPT ![a] = c]
                /\ ev' = ev \o c.out
-               /\ CASE c.sig = "reject" -> End("rejected") /\ UNCHANGED <<pend, ai, pick>>
+               /\ CASE c.sig \in Rejections -> EndRej(c.sig) /\ UNCHANGED <<pend, ai, pick>>
                     [] c.sig = "pick" -> pick' = <<"beh", a>> /\ UNCHANGED <<pend, ai, phase, ending>>
                     [] c.sig \in {"terminate", "termsim"} -> End("terminatedByBehavior") /\ UNCHANGED <<pend, ai, pick>>
                     [] OTHER -> /\ pend' = [pend EXCEPT ![a] = c.acts] /\ ai' = ai + 1
@@ -353,14 +373,14 @@ Pick ==
         /\ ev' = ev \o c2.out
         /\ IF pick[1] = "beh"
            THEN /\ beh' = [beh EXCEPT ![pick[2]] = c2] /\ UNCHANGED mon
-                /\ CASE c2.sig = "reject" -> End("rejected") /\ UNCHANGED <<pend, ai>> /\ pick' = <<>>
+                /\ CASE c2.sig \in Rejections -> EndRej(c2.sig) /\ UNCHANGED <<pend, ai>> /\ pick' = <<>>
                      [] c2.sig = "pick" -> UNCHANGED <<pend, ai, phase, ending, pick>>
                      [] c2.sig \in {"terminate", "termsim"} -> End("terminatedByBehavior") /\ UNCHANGED <<pend, ai>> /\ pick' = <<>>
                      [] OTHER -> /\ pend' = [pend EXCEPT ![pick[2]] = c2.acts] /\ ai' = ai + 1
                                  /\ UNCHANGED <<phase, ending>> /\ pick' = <<>>
                 /\ UNCHANGED flag
            ELSE /\ mon' = [mon EXCEPT ![pick[2]] = c2] /\ UNCHANGED <<beh, pend>>
-                /\ CASE c2.sig = "reject" -> End("rejected") /\ UNCHANGED <<flag, ai>> /\ pick' = <<>>
+                /\ CASE c2.sig \in Rejections -> EndRej(c2.sig) /\ UNCHANGED <<flag, ai>> /\ pick' = <<>>
                      [] c2.sig = "pick" -> UNCHANGED <<flag, ai, phase, ending, pick>>
                      [] c2.sig \in {"terminate", "termsim"} -> flag' = <<"terminatedByMonitor">> /\ ai' = ai + 1 /\ UNCHANGED <<phase, ending>> /\ pick' = <<>>
                      [] OTHER -> ai' = ai + 1 /\ UNCHANGED <<flag, phase, ending>> /\ pick' = <<>>
